@@ -5471,6 +5471,11 @@ class PyCdlib:
 
         del self.brs[eltorito_index]
 
+        # An isohybrid MBR boots the El Torito boot file; without El Torito
+        # it has nothing to point at (and would keep whatever address was
+        # computed last), so it goes as well.
+        self.isohybrid_mbr = None
+
         num_bytes_to_remove = 0
 
         # On a UDF ISO, removing the Boot Record doesn't actually decrease
